@@ -48,7 +48,7 @@ def feedLastGop (g : T) (item : Bytes) : T × Bool :=
   if !isEmpty g then
     let pos := (g.last + g.gopSize - 1) % g.gopSize
     let cur := (g.ring[pos]?).getD []
-    if cur.length ≤ g.cap || g.cap == 0 then (setRing g pos (cur ++ [item]), true)
+    if cur.length < g.cap || g.cap == 0 then (setRing g pos (cur ++ [item]), true)
     else (g, false)
   else (g, true)
 
